@@ -129,6 +129,15 @@ def check_case(case) -> Outcome:
     return out
 
 
+def predict(spec, fc, fr, efr):
+    """Expected (names, matrix) for a materialised spec on frame case `fr` (structure-based when rank reduction is on)."""
+    if not efr:
+        en, eM, _ = E.expected_full(fc, fr)
+        return en, eM
+    st_ = read_structure(spec)
+    return E.expected_from_structure(fc, fr, [(a, b, c) for a, b, c, _ in st_])
+
+
 def _is_lit(x):
     return x[:1].isdigit() or x[:1] == "."
 
